@@ -4,7 +4,9 @@
 use crate::choices::Choices;
 use crate::lex::{lex, TK};
 
-const NON_ASCII: &[&str] = &["é", "ß", "日本", "🦀", "\u{200b}", "ａ", "Ω", "\u{feff}", "ñ", "一"];
+const NON_ASCII: &[&str] = &["é", "ß", "日本", "🦀", "\u{200b}", "ａ", "Ω", "\u{feff}", "ñ", "一", "\u{3000}", "\u{a0}", "\u{2003}"];
+const ODD_LITERALS: &[&str] = &["0b1f32", "0o7f64", "1e", "0x", "0b", "1_f32", "0.0_f32", "1__000", "1.0e+", "'ab'", "b'\\xff'", "r#\"q\"#", "0xffu8", "1e1_0", "0b12", "9.9.9", "1..2.", "0e0f32"];
+const MARKDOWN: &[&str] = &["/// > >é quoted text that goes on for a while so that the wrapping code has something to do with it", "/// - item é\n///     - nested 日本 item that is long enough to be wrapped at small widths for sure", "/// 1. first\n/// 12) second ß", "/// > >>a", "//! * bullet\n//!   continued ａ", "/*\n\u{3000}* wide space before the star\n */", "/// ```\n/// let é = 1;\n/// ```", "/// | a | b |\n/// |---|---|\n/// | é | 日本 |"];
 const DELIMS: &[&str] = &["(", ")", "[", "]", "{", "}", "<", ">", "\"", "'", "/*", "*/", "//", "r#\"", "|"];
 
 pub fn mutate(src: &str, c: &mut Choices<'_>, n_mut: usize) -> (String, Vec<&'static str>) {
@@ -26,7 +28,7 @@ pub fn mutate(src: &str, c: &mut Choices<'_>, n_mut: usize) -> (String, Vec<&'st
     }
     for _ in 0..n_mut.max(1) {
         let i = sig[c.below(sig.len())].min(pieces.len() - 1);
-        match c.below(10) {
+        match c.below(12) {
             0 => {
                 pieces[i].clear();
                 applied.push("delete");
@@ -92,6 +94,19 @@ pub fn mutate(src: &str, c: &mut Choices<'_>, n_mut: usize) -> (String, Vec<&'st
                 }
                 pieces[i] = format!("{}{s}{}", &p[..at], &p[at..]);
                 applied.push("non-ascii");
+            }
+            10 => {
+                // a literal token replaced by an odd but lexable literal
+                let lits: Vec<usize> = sig.iter().copied().filter(|k| *k < pieces.len() && kinds.get(*k).map(|t| t.is_literal()).unwrap_or(false)).collect();
+                let k = if lits.is_empty() { i } else { lits[c.below(lits.len())] };
+                pieces[k] = (*c.pick(ODD_LITERALS)).to_string();
+                applied.push("odd-literal");
+            }
+            11 => {
+                // a doc / block comment with markdown markers and multi-byte text before a token
+                let m = *c.pick(MARKDOWN);
+                pieces[i] = format!("\n{m}\n{}", pieces[i]);
+                applied.push("markdown-comment");
             }
             9 => {
                 // an identifier with multi-byte letters next to `_` and digits (names are
